@@ -21,17 +21,22 @@ FORBIDDEN = re.compile(r"\bsorry\b|\badmit\b|^\s*(private\s+|protected\s+)?axiom
                        r"|^\s*(private\s+|protected\s+)?opaque\s|\bpartial\s+def\b|@\[extern|skipKernelTC|\bextern\s+\"")
 
 TRUSTED_BASE = [
-    "Lean 4.33.0 kernel (thorough tier: re-checked by leanchecker)",
-    "axioms per theorem as printed by #print axioms, allowed subset {propext, Classical.choice, Quot.sound}; no native_decide, no bv_decide, no own axioms",
-    "tools/gen_lean.py and the translators it calls (py2lean_wrap.py: Sequence wrapper; py2lean.py: view-level methods; py2lean_elem.py: Bar/Track/Composition; "
-    "py2lean_rel2.py: normalise_relative and split with object identity; py2lean_static.py: sequences_split_bars, MidiFile.convert, the mido parsers, load/save glue; "
-    "gen_settings_patch.py: typed defaults; table dump, AST translator of music_theory.py, taint/alias/purity fact extractors) — everything under lean/SCoda/Gen is "
-    "regenerated from /repo on every run; the translators' conventions (a sequence object is its message list, None = -1, msg.copy() is the identity on values — checked on the AST of Message by every translator —, an "
-    "iterator is run to its end) and their link tables (Model/ViewLib.lean, Model/ElemLib.lean) are assumptions",
-    "harness/protocol.py + lean/Driver.lean + lean/HeapDriver.lean + harness/heap_corr.py (canonical printing/parsing on both sides of the correspondence)",
-    "hand-written Lean models of functions that are NOT translated (quantise, quantise_note_lengths, cutoff, pairings, equals of absolute_sequence.py; "
-    "the tokeniser; mido's byte-level reading and writing) are tied to the code only by the correspondence check (sampled + small-scope exhaustive); translated "
-    "functions (DESIGN 9.2c) are proved equal to their hand models on every run",
+    "Lean 4.33.0 kernel; every cited name must be a theorem with axioms within {propext, Classical.choice, Quot.sound} (audited per run); forbidden-construct grep; "
+    "thorough tier: leanchecker replays every SCoda module the property's modules import",
+    "the translators tools/py2lean*.py (wrap, view, elem, rel2, static, tok, abs2, util) and tools/gen_lean.py — everything under lean/SCoda/Gen is regenerated from "
+    "/repo on every run; their conventions (a sequence object is its message list or a list of references into a heap of message objects; None = -1; int unbounded; "
+    "a float is an exact rational, IEEE rounding not modelled; dicts as insertion-ordered association lists; iterators run to their end; proved fuel for while loops; "
+    "logger calls dropped; exception classes the properties never distinguish share a constructor)",
+    "tools/conventions.py + tools/conventions_baseline.json: special methods, class-level and module-level statements, settings imports and linked bodies of the source "
+    "are fingerprinted and compared with the recorded baseline on every run (what the translators do not translate); trusted: that the baseline source means what "
+    "the link tables say",
+    "link tables Model/ViewLib, ElemLib, StaticLib, TokLib, UtilLib (hand-written Lean for Python called by name; most entries are proved equal to their translation: "
+    "DESIGN 9.2e lists the exceptions: list.sort, mido_open, int(str)/split/zfill, numpy.digitize); effects of a callee on its non-receiver arguments are dropped",
+    "mido's file codec (written messages are read back as written), sampled by the C12/C13 oracles through real files",
+    "harness/protocol.py + lean/Driver.lean + lean/HeapDriver.lean + harness/heap_corr.py (canonical printing/parsing on both sides of the correspondence); the property "
+    "oracles, the known-finding predicates (decide KNOWN-FINDING vs VIOLATION) and the oracles' domain skips (counted in `distribution`)",
+    "hand-written Lean models of functions that are NOT translated (docs/translation_coverage.md: the __eq__ wrappers, read-only pairing wrappers, save/from_midi_file "
+    "glue) are tied to the code only by the sampled correspondence; translated functions are proved equal to their hand models on every run",
 ]
 
 
